@@ -13,7 +13,7 @@ import (
 //assume: C12.seq: store, lock, identity provider are nondeterministic stubs (every call may fail independently); the clock is a symbolic instant that does not advance during one request; the 5 s lock-obtain timeout never fires (lock busy for at most 2 rounds); times are 10-digit unix seconds
 //assume: C12.seq: the store hands out a fresh session object on every Load (what both real stores do)
 
-// verif: unwind=6 also=C13,C01,C14,C11
+// verif: unwind=6 also=C13,C01,C14,C11,C07,C09 paths=80000
 func vh_C12_seq() {
 	nowSec := int64(ndInt("now"))
 	verifAssume(nowSec >= 1000000000 && nowSec <= 9999999999)
@@ -99,6 +99,17 @@ func vh_C12_seq() {
 			// a loaded session was dropped: it must have been stale, and the cookie is cleared
 			verifAssert("C12.dropped-implies-stale", refresh > 0 && st.loadSess[0].CreatedAt != nil)
 			verifAssert("C12.dropped-implies-clear", st.clearCalls == 1)
+			// ... and only for a reason: the lock or the reload or the save failed, the provider
+			// did not (re)validate it, or it is past its own expiry -- a stale session that was
+			// refreshed and validated is served
+			isExpired := func(t *time.Time) bool { return t != nil && !t.IsZero() && t.Before(vNow()) }
+			expired := isExpired(st.loadSess[0].ExpiresOn) || isExpired(idp.newExpires)
+			if st.loadCalls == 2 && st.loadKind[1] == 0 {
+				expired = expired || isExpired(st.loadSess[1].ExpiresOn)
+			}
+			reason := vOr(lock.obtainErr != nil, vAnd(st.loadCalls == 2, st.loadKind[1] != 0), st.saveErr != nil,
+				vAnd(idp.validateCalls >= 1, !idp.validateOK), expired)
+			verifAssert("C12.dropped-only-for-a-reason", reason)
 		}
 		_ = failed
 		verifAssert("C12.lock-released-on-error", !lock.obtained)
